@@ -222,6 +222,18 @@ def run(chk):
     if not good:
         chk.violation("C04.siblings", key + ":evaluate", "PIDKValues::evaluate computes %r" % (r,), fn=ev[0]["pretty"], file=loc(ev[0]["span"]))
         ok = False
+    # the composed controller's members across a gap: after an absent / error event the crate's own integral and derivative
+    # streams must restart exactly like the PID stream's I and D (shared event-run analysis with C10)
+    import report
+    for member in ("IntegralStream", "DerivativeStream"):
+        sub = report.Check("C04", chk.tier)
+        C10.UNITS_ON[0] = __import__("program").units_enabled(prog)
+        C10.check_interleaved(sub, prog, sim, member)
+        chk.evaluated(1, nontrivial=(key, "member-events", member))
+        for v in sub.violations:
+            rule = v["rule"] if v["rule"] in ("analysis-incomplete",) else "C04.siblings"
+            chk.violation(rule, "%s:member-events:%s" % (key, v["key"]), "the controller assembled from the crate's streams disagrees with PIDControllerStream across a gap: " + v["what"], **v.get("detail", {}))
+            ok = False
     if ok:
         chk.discharge(key)
     chk.assume("real-arithmetic model: f32 rounding / accumulation error not decided", "whole-network equivalence with examples/pid.rs is derived from the shared recurrences, not simulated",
